@@ -59,8 +59,8 @@ def conformance(prop, tier, seed, work, ev, drv):
     ccases = work.path("slice.ctx.cases")
     generate(work, "context", ccases, {})
     rejects += eng_eval.run_and_judge("slice behind a projection over rows of different lengths", ccases, work, ev, drv, nsamples=1)
-    rejects += eng_eval.pool_families(["litop", "twoslice", "msidx"], work, ev, drv)
-    rejects += eng_eval.pools_matching(r"\[[^\]\[]*:[^\]\[]*\]|\[-?[0-9]+\]", "a slice or an index", work, ev, drv, skip=("litop", "twoslice", "msidx", "compose"))
+    rejects += eng_eval.pool_families(["litop", "twoslice", "msidx", "zeropad"], work, ev, drv)
+    rejects += eng_eval.pools_matching(r"\[[^\]\[]*:[^\]\[]*\]|\[-?[0-9]+\]", "a slice or an index", work, ev, drv, skip=("litop", "twoslice", "msidx", "compose", "zeropad"))
     # impl -> spec: random larger tuples drawn by the driver, spelled and judged by TLC
     params = work.path("slice.params")
     subprocess.check_call([drv, "gen", "slice", str(seed), str(t["rand"]), params])
